@@ -611,60 +611,63 @@ theorem processLoop_log (t : Int) : ∀ (fuel : Nat) (s : MState Q),
         · exact h2 d h3
         · simp at h3; subst h3; rfl
 
-theorem cancelled_applyAct (re : Bool) (s : MState Q) (a : Act) :
-    ∀ e ∈ s.h.cancelled, e ∈ (applyAct I re s a).h.cancelled := by
-  intro e he
+/-- the ghost ledgers only grow -/
+def Grows (h h' : Host) : Prop := (∀ e ∈ h.cancelled, e ∈ h'.cancelled) ∧ (∀ e ∈ h.posted, e ∈ h'.posted)
+
+theorem Grows.refl (h : Host) : Grows h h := ⟨fun _ he => he, fun _ he => he⟩
+theorem Grows.trans {h1 h2 h3 : Host} (a : Grows h1 h2) (b : Grows h2 h3) : Grows h1 h3 :=
+  ⟨fun e he => b.1 e (a.1 e he), fun e he => b.2 e (a.2 e he)⟩
+
+theorem grows_applyAct (re : Bool) (s : MState Q) (a : Act) : Grows s.h (applyAct I re s a).h := by
   cases a <;> simp only [applyAct, Machine.cancelBy]
-  case tick k => exact he
-  case post l typ d f => split; exact he; split; exact he; split <;> exact he
-  all_goals (split; exact he; exact List.mem_append_right _ he)
+  case tick k => exact Grows.refl _
+  case post l typ d f =>
+    split; exact Grows.refl _; split; exact Grows.refl _; split; exact Grows.refl _
+    exact ⟨fun _ he => he, fun _ he => List.mem_cons_of_mem _ he⟩
+  all_goals (split; exact Grows.refl _; exact ⟨fun _ he => List.mem_append_right _ he, fun _ he => he⟩)
 
-theorem cancelled_foldl (re : Bool) : ∀ (acts : List Act) (s : MState Q),
-    ∀ e ∈ s.h.cancelled, e ∈ (acts.foldl (applyAct I re) s).h.cancelled
-  | [], _, _, he => he
-  | a :: acts, s, e, he => cancelled_foldl re acts _ e (cancelled_applyAct I re s a e he)
+theorem grows_foldl (re : Bool) : ∀ (acts : List Act) (s : MState Q), Grows s.h (acts.foldl (applyAct I re) s).h
+  | [], _ => Grows.refl _
+  | a :: acts, s => (grows_applyAct I re s a).trans (grows_foldl re acts _)
 
-theorem cancelled_processLoop (t : Int) : ∀ (fuel : Nat) (s : MState Q),
-    ∀ e ∈ s.h.cancelled, e ∈ (processLoop I fuel t s).h.cancelled
-  | 0, _, e, he => he
-  | fuel + 1, s, e, he => by
+theorem grows_processLoop (t : Int) : ∀ (fuel : Nat) (s : MState Q), Grows s.h (processLoop I fuel t s).h
+  | 0, _ => Grows.refl _
+  | fuel + 1, s => by
     simp only [processLoop]
     cases hq : I.popDue s.q t with
-    | none => exact he
+    | none => exact Grows.refl _
     | some x =>
       obtain ⟨e', q'⟩ := x
       simp only
-      apply cancelled_processLoop t fuel
-      unfold runHandler
-      exact cancelled_foldl I true _ _ e he
+      let s1 : MState Q := { q := q', h := { s.h with log := ⟨e', t, s.h.now, I.toList q'⟩ :: s.h.log } }
+      have g1 : Grows s.h s1.h := ⟨fun _ he => he, fun _ he => he⟩
+      have g2 : Grows s1.h (runHandler I s1 e').h := grows_foldl I true _ s1
+      exact g1.trans (g2.trans (grows_processLoop t fuel (runHandler I s1 e')))
 
-theorem cancelled_step {s s' : MState Q} {op : Op} (hs : Machine.step I s op = some s') :
-    ∀ e ∈ s.h.cancelled, e ∈ s'.h.cancelled := by
-  intro e he
+theorem grows_step {s s' : MState Q} {op : Op} (hs : Machine.step I s op = some s') : Grows s.h s'.h := by
   cases op with
   | act a =>
     simp only [Machine.step] at hs
     split at hs
-    · cases hs; exact cancelled_applyAct I false s a e he
+    · cases hs; exact grows_applyAct I false s a
     · cases hs
   | newl l =>
     simp only [Machine.step] at hs
     split at hs
-    · cases hs; exact he
+    · cases hs; exact Grows.refl _
     · cases hs
-  | handler l t acts => simp only [Machine.step] at hs; cases hs; exact he
-  | process => simp only [Machine.step] at hs; cases hs; exact cancelled_processLoop I _ _ s e he
+  | handler l t acts => simp only [Machine.step] at hs; cases hs; exact Grows.refl _
+  | process => simp only [Machine.step] at hs; cases hs; exact grows_processLoop I _ _ s
 
-theorem cancelled_run : ∀ (ops : List Op) {s s' : MState Q}, Machine.run I s ops = some s' →
-    ∀ e ∈ s.h.cancelled, e ∈ s'.h.cancelled
-  | [], _, _, hs, e, he => by cases hs; exact he
-  | op :: ops, s, s', hs, e, he => by
+theorem grows_run : ∀ (ops : List Op) {s s' : MState Q}, Machine.run I s ops = some s' → Grows s.h s'.h
+  | [], _, _, hs => by cases hs; exact Grows.refl _
+  | op :: ops, s, s', hs => by
     simp only [Machine.run] at hs
     cases h1 : Machine.step I s op with
     | none => rw [h1] at hs; cases hs
     | some s1 =>
       rw [h1] at hs
-      exact cancelled_run ops hs e (cancelled_step I h1 e he)
+      exact (grows_step I h1).trans (grows_run ops hs)
 
 theorem run_append : ∀ (ops1 ops2 : List Op) (s : MState Q),
     Machine.run I s (ops1 ++ ops2) = (Machine.run I s ops1).bind (Machine.run I · ops2)
